@@ -23,7 +23,7 @@ def label_names(ndef: int, k: int) -> list[str]:
     """the label definitions the template makes outside loop iterations, with multiplicity (by construction)"""
     if k == EMPTY:
         return ["start"]
-    names = ["start"] + (["flagged"] if ndef >= 2 else []) + ["local", "local"]
+    names = ["start", "start_alias"] + (["flagged"] if ndef >= 2 else []) + ["local", "local"]
     names += {1: [], 2: ["entry", "entry2"], 3: ["inner"], 0: []}[k % 4]
     names += ["edge", "crossed"] + (["ram_code"] if k % 2 else []) + ["after"]
     return sorted(names)
@@ -33,7 +33,8 @@ def program(mapping: str, ndef: int, k: int) -> str:
     a, edge, other = ORG[mapping]
     if k == EMPTY:
         return f"*=0x{a:06x}\nstart:\nvalue = 5\nother := 6\n"
-    lines = [f"*=0x{a:06x}", "start:", "lda.w #0x1234", "sta.l start"]
+    # (two labels at one address; a TAB inside a string)
+    lines = [f"*=0x{a:06x}", "start:", "start_alias:", "lda.w #0x1234", "sta.l start", ".ascii 'A\tB'"]
     if ndef >= 1:
         lines += [".dw DEFV", "lda.w #DEFV + 1", "derived = DEFV & 0xff", ".db derived"]
     if ndef >= 2:
@@ -56,6 +57,8 @@ def program(mapping: str, ndef: int, k: int) -> str:
     sections.append([f"*=0x{other + 0x8000:06x}", ".db 0x5a"])           # a high block
     # two blocks that overlap, the later one starting lower (file order decides, not offset order)
     sections.append([f"*=0x{other + 0x9004:06x}", ".db 1, 2, 3, 4", f"*=0x{other + 0x9000:06x}", ".db 9, 9, 9, 9, 9, 9", f"*=0x{other + 0x9003:06x}", ".db 7, 7"])
+    # a block written again, unchanged, after another block overwrote part of it
+    sections.append([f"*=0x{other + 0xA000:06x}", ".db 1, 2, 3, 4", f"*=0x{other + 0xA002:06x}", ".db 0x99, 0x98, 0x97, 0x96", f"*=0x{other + 0xA000:06x}", ".db 1, 2, 3, 4"])
     # the order in which the positions are visited rotates with k (ascending, middle-low-high, high first, ...)
     r = (k // 2) % len(sections)
     for sec in sections[r:] + sections[:r]:
